@@ -3,6 +3,7 @@
 
   seeds.py run [id ...]   confirm + run every check against each seed (scratch worktrees under
                           /tmp, removed afterwards), update meta.json and seeded/RESULTS.md
+  seeds.py table          rewrite seeded/RESULTS.md from the meta.json files
 """
 import json
 import os
@@ -46,7 +47,21 @@ def run_one(sid):
     return sid, meta
 
 
+def table():
+    """RESULTS.md from the meta.json files as they are (each records its seed's last run)"""
+    lines = ["# Seeded changes: which checks report them", "", "(per seed: the result of its last `tools/seeds.py run`; the thorough tier of every check replays the seeds of its own property on every run)", "", "| seed | breaks | confirmed | own check | reported by | no verdict (exit 2) |", "|---|---|---|---|---|---|"]
+    for sid in sorted(x for x in os.listdir(SEEDED) if os.path.isdir(os.path.join(SEEDED, x))):
+        m = json.load(open(os.path.join(SEEDED, sid, "meta.json")))
+        if "confirmation" not in m:
+            continue
+        lines.append("| %s | %s | %s | %s | %s | %s |" % (sid, m["property"], "yes" if m["confirmation"]["confirmed"] else "NO", "yes" if m.get("own_property_detects") else "no", ", ".join(sorted(m.get("detected_by", {}))) or "-", ", ".join(sorted(m.get("no_verdict", {}))) or "-"))
+    open(os.path.join(SEEDED, "RESULTS.md"), "w").write("\n".join(lines) + "\n")
+    print(len(lines) - 6, "rows")
+
+
 def main():
+    if sys.argv[1:2] == ["table"]:
+        return table()
     ids = sys.argv[2:] or sorted(x for x in os.listdir(SEEDED) if os.path.isdir(os.path.join(SEEDED, x)))
     with ThreadPoolExecutor(max_workers=5) as ex:
         results = list(ex.map(run_one, ids))
